@@ -1,6 +1,7 @@
 from __future__ import annotations
 
 from dataclasses import dataclass, field
+from itertools import islice
 from typing import Generic, Optional, Iterable, Dict, Any, Callable, List, Union
 
 from typing_extensions import TypeVar
@@ -112,13 +113,25 @@ class HashedIterable(Generic[T]):
 
         :return: An iterator over the hashed values.
         """
-        yield from self.values.values()
-        for v in self.iterable:
-            if v.id_ in self.values:
-                # an object that is listed again is the same value, the first pass behaves like every later pass.
+        # The values can grow while this pass is suspended (another pass over the same lazy iterable memoises what it
+        # reads, instances are registered while a query over the registry is being consumed): they are handed out by
+        # position, never by iterating over the dictionary across a suspension.
+        source = iter(self.iterable)
+        handed_out = 0
+        while True:
+            if handed_out < len(self.values):
+                for v in list(islice(self.values.values(), handed_out, None)):
+                    handed_out += 1
+                    yield v
                 continue
-            self.values[v.id_] = v
-            yield v
+            for v in source:
+                if v.id_ in self.values:
+                    # an object that is listed again is the same value, the first pass behaves like every later pass.
+                    continue
+                self.values[v.id_] = v
+                break
+            else:
+                return
 
     def __or__(self, other) -> HashedIterable[T]:
         return self.union(other)
